@@ -50,6 +50,10 @@ func (b *Builder) BelongsTo(o interface{}, moduleName string) *BelongsTo {
 	d, valid := o.(*Module)
 	if !valid {
 		b.setErr(fmt.Errorf("belongs-to is only allowed on a sub-module and not %T", o))
+	} else if d.parent == nil {
+		// a module proper has no parent module: references through the belongs-to prefix and
+		// the search for typedefs and groupings in "the parent" would dereference nil
+		b.setErr(fmt.Errorf("belongs-to is only allowed on a sub-module and not on module %s", d.ident))
 	} else {
 		d.belongsTo = belongsTo
 	}
